@@ -6,6 +6,7 @@ import Lattigo.Model.EncoderC
   CKKS half of the C07 line protocol (first token after the property id is `ckks`):
     ckks encslot <N> <ci> <qs> <P> <scale dy> <slots> <re sd> <im sd>   ⇒ centred coefficients (N ints)
     ckks enccoef <N> <qs> <P> <scale dy> <v0;v1;…  (sd each)>            ⇒ centred coefficients (N ints)
+    ckks encpoly <N> <ci> <qs> <slots> <re ints> <im ints>               ⇒ centred coefficients (N ints)
     ckks rotgroup <m>                                                   ⇒ table
     ckks bitrev <bits> <i>                                              ⇒ index
     ckks roundprec <num> <den> <logprec>                                ⇒ k
@@ -31,6 +32,10 @@ def handle (toks : List String) : String :=
     match parseNat? n, parseVec? qs, parseNat? p, C06.parseDy? sc, (vals.splitOn ";").mapM C06.parseSD? with
     | some n, some qs, some p, some sc, some vals => center qs (encodeCoeffs n p sc vals)
     | _, _, _, _, _ => badOp
+  | ["ckks", "encpoly", n, ci, qs, slots, re, im] =>
+    match parseNat? n, C06.parseBool? ci, parseVec? qs, parseNat? slots, parseIVec? re, parseIVec? im with
+    | some n, some ci, some qs, some slots, some re, some im => center qs (encodePoly n ci slots re im)
+    | _, _, _, _, _, _ => badOp
   | ["ckks", "rotgroup", m] =>
     match parseNat? m with
     | some m => showVec (rotGroup m)
